@@ -3,7 +3,7 @@ import itertools
 import re
 
 from .. import progen
-from ..core import Case, Check
+from ..core import Case, Check, outcomes_agree
 from ..progen import I, L, S
 from ..run import hx
 from .c02 import VALS, sty
@@ -13,6 +13,10 @@ from .c05 import IDF, UNOPS
 
 ALLOWED = ("ok", "perr", "rerr")
 MEMBERS = ["at", "put", "insert", "delete", "concat", "count"]
+# Built-ins whose outcome class (value / parse error code / runtime error code) is also compared with the Lean model
+# (`bi` command of the driver = Model/Builtins.lean `evalBuiltin`) when every operand is a typed variable: the two
+# built-ins modelled after the repairs fde74fa (abs) and eec6e8e (pow). Their values are compared by ./check C10.
+MODEL_COMPARED = ("abs", "pow")
 
 
 def crash_class(iout):
@@ -44,20 +48,23 @@ class C01(Check):
             "ASan+UBSan(+float-cast): the outcome must be a value, a parse error or a runtime error; (b) source texts: generated "
             "valid programs mutated at EVERY token position (delete, duplicate, replace, truncate) and by byte edits (NUL, high "
             "bytes, unterminated strings/comments, >1023-byte lines), through Parser::parse+run, the C API and the "
-            "statement-at-a-time path; (c) the witnesses of repaired crashes (e.g. a for body that nulls its control variable: NOT_INTEGER since dcf5ae2). A crash is a violation unless it is a listed known finding (identified by construct + "
-            "crash class). distinct = case text.")
+            "statement-at-a-time path; (c) the witnesses of repaired crashes (e.g. a for body that nulls its control variable: "
+            "NOT_INTEGER since the repair). A crash is a violation unless it is a listed known finding with status 'known' (identified "
+            "by construct + crash class; the overflow findings of substr, subraw, hex, abs and the float-cast finding of pow "
+            "are 'fixed' and suppress nothing). For abs and pow on typed variables the outcome class and the error code are "
+            "also compared with the Lean model. distinct = case text.")
 
     def gen_cases(self):
         quick = self.tier == "quick"
         cases = []
         n = 0
 
-        def add(kind, name, expr, setup, mode="prog"):
+        def add(kind, name, expr, setup, mode="prog", model=""):
             nonlocal n
             n += 1
             src = "r = %s;" % expr if mode == "prog" else expr
             ops = ["new 0", "prog 0 " + hx(IDF)] + setup + ["%s 0 %s" % ("prog" if mode != "capi" else "capi", hx(src))]
-            cases.append(Case("c%d" % n, "", "|".join(ops), {"family": kind, "name": name, "expr": expr}))
+            cases.append(Case("c%d" % n, model, "|".join(ops), {"family": kind, "name": name, "expr": expr}))
 
         import sys, os
         kws = self.builtin_keywords()
@@ -75,7 +82,7 @@ class C01(Check):
             for (t1, v1) in vals:
                 for k1 in ("var", "tmp"):
                     e1, s1 = operand(v1, "x", k1)
-                    add("bi", f, "%s(%s)" % (f, e1), s1)
+                    add("bi", f, "%s(%s)" % (f, e1), s1, model=("bi %s %s" % (f, v1)) if (f in MODEL_COMPARED and k1 == "var") else "")
                     if k1 == "tmp" and quick:
                         continue
                     for (t2, v2) in vals:
@@ -83,7 +90,8 @@ class C01(Check):
                         if quick and (len(t2) > 1 or ((t2, v2) in VALS and VALS.index((t2, v2)) % 2)):
                             continue
                         e2, s2 = operand(v2, "y", "var")
-                        add("bi", f, "%s(%s, %s)" % (f, e1, e2), s1 + s2)
+                        add("bi", f, "%s(%s, %s)" % (f, e1, e2), s1 + s2,
+                            model=("bi %s %s %s" % (f, v1, v2)) if (f in MODEL_COMPARED and k1 == "var") else "")
             if f in ("substr", "subraw", "strpos", "replace", "tokenize", "clamp", "raw"):
                 for (t1, v1), (t2, v2), (t3, v3) in itertools.product(vals[:12], vals[:12], vals[:12]):
                     if quick and (vals.index((t1, v1)) + vals.index((t2, v2)) + vals.index((t3, v3))) % 5:
@@ -187,6 +195,15 @@ class C01(Check):
         if len(self.samples) < 10 and self.rng.random() < 0.0005:
             self.samples.append({"family": c.meta["family"], "case": c.meta["expr"][:200], "impl": out[:80]})
         if head in ALLOWED and "foreign-exception" not in iraw and "uncaught" not in iraw:
+            mout = m.get("model") if c.model_line else None
+            if mout and mout != "unmodelled":
+                # outcome class against the model: value <-> value, error code <-> error code
+                self.stats["model_compared"] = self.stats.get("model_compared", 0) + 1
+                if mout.startswith("hazard "):
+                    return self.record_violation("model reaches a C-level hazard on `%s`" % c.meta["expr"][:200], c, out, m, stderr)
+                same = (head == "ok") if mout.startswith("ok ") else outcomes_agree(out, mout)
+                if not same:
+                    return self.record_violation("`%s` ends in %s, the model gives %s" % (c.meta["expr"][:200], out[:60], mout[:60]), c, out, m, stderr)
             return
         if "asan:alloc-too-big" in out or "std::bad_alloc" in out or "std::length_error" in out:
             # a requested allocation size beyond memory: outside the property's domain (bounded sizes)
